@@ -213,6 +213,88 @@ func failing() {
 	vrt.Observe("order=%v", w.Root.Order)
 }
 
+// oversized: a method whose answer is exactly as large as a message may be,
+// and one whose answer is larger: each call still gets exactly one outcome.
+func oversized() {
+	w := fx.Start(bus.Yes{})
+	c1, c2 := w.MustConnect(), w.MustConnect()
+	pA, pB := c1.Probe(1), c2.Probe(1)
+	limit := int32(net.MaxPayloadSize) - 4 // the string is preceded by its 4-byte length
+	vrt.Explore()
+	var sA, sB string
+	var eA, eB error
+	doneA, doneB := false, false
+	ws := []*vrt.Thread{
+		vrt.GoWorker("A", func() { sA, eA = pA.Blob(limit); doneA = true }),
+		vrt.GoWorker("B", func() { sB, eB = pB.Blob(limit + 1); doneB = true }),
+	}
+	vrt.Quiesce()
+	if !doneA {
+		vrt.Failf("hang/limit-size-answer", "a call whose answer has exactly the largest payload size never returned")
+	} else if eA != nil || len(sA) != int(limit) {
+		vrt.Failf("call-failed/limit-size-answer", "a call whose answer has exactly the largest payload size returned %d bytes, %v", len(sA), eA)
+	}
+	if !doneB {
+		vrt.Failf("hang/oversized-answer", "a call whose answer exceeds the largest payload size never returned (the method ran %d times)", w.Root.Calls[fmt.Sprintf("blob(%d)", limit+1)])
+	} else if eB == nil && len(sB) != int(limit+1) {
+		vrt.Failf("wrong-result/oversized-answer", "blob(%d) returned %d bytes", limit+1, len(sB))
+	}
+	for _, n := range []int32{limit, limit + 1} {
+		if k := w.Root.Calls[fmt.Sprintf("blob(%d)", n)]; k != 1 {
+			vrt.Failf("execution-count/blob", "blob(%d) ran %d times", n, k)
+		}
+	}
+	_ = ws
+	// the service keeps serving
+	c3 := w.MustConnect()
+	if v, err := c3.Probe(1).Echo(3); err != nil || v != probe.EchoResult(3) {
+		vrt.Failf("service-unavailable-after-oversized-answer", "echo on a fresh connection: %d, %v", v, err)
+	}
+	vrt.Observe("A=%v B=%v", eA != nil, eB != nil)
+}
+
+// twoClients: two client objects share one connection (as bus.Cache.Proxy and
+// the relays of client-side objects create them); their message counters
+// run in parallel, so two pending calls can carry the same message id. Same
+// service, same action, different objects; the later call is answered first.
+func twoClients() {
+	w := fx.Start(bus.Yes{})
+	c1 := w.MustConnect()
+	child, err := c1.Probe(1).Spawn()
+	if err != nil {
+		vrt.Failf("harness/spawn", "%v", err)
+		return
+	}
+	childID := child.Proxy().ObjectID()
+	x, y := bus.NewClient(c1.Client.Channel()), bus.NewClient(c1.Client.Channel())
+	w.Root.Gate = make(chan struct{})
+	vrt.Explore()
+	var rx, ry []byte
+	var ex, ey error
+	doneX, doneY := false, false
+	wx := vrt.GoWorker("X", func() { rx, ex = x.Call(nil, w.ServiceID, 1, 103, fx.Int32(11)); doneX = true })
+	vrt.Quiesce() // slow(11) is running on the service object, held by the gate
+	wy := vrt.GoWorker("Y", func() { ry, ey = y.Call(nil, w.ServiceID, childID, 103, fx.Int32(12)); doneY = true })
+	vrt.Quiesce()
+	if !doneY {
+		vrt.Failf("hang/Y", "the call to the child object did not return while another object was busy")
+	} else if v, err := fx.ReadInt32(ry); ey != nil || err != nil || v != probe.EchoResult(12) {
+		vrt.Failf("wrong-result/second-client", "slow(12) on the child object returned %d, %v / %v; its own arguments give %d", v, ey, err, probe.EchoResult(12))
+	}
+	if doneX {
+		v, _ := fx.ReadInt32(rx)
+		vrt.Failf("answer-of-another-call/first-client", "slow(11) on the service object returned (%d, %v) while its method was still running: it received the answer of another client's call carrying the same message id", v, ex)
+	}
+	close(w.Root.Gate)
+	vrt.Quiesce()
+	fx.Settle(wx, wy)
+	if v, err := fx.ReadInt32(rx); doneX && (ex != nil || err != nil || v != probe.EchoResult(11)) {
+		vrt.Failf("wrong-result/first-client", "slow(11) returned %d, %v; its own arguments give %d", v, ex, probe.EchoResult(11))
+	}
+	checkWire("conn1", c1, nil)
+	vrt.Observe("x=%v y=%v", ex != nil, ey != nil)
+}
+
 // cancel: a call with a cancel channel racing the closing of that channel.
 func cancel(action uint32, key string, payload []byte, want int32) func() {
 	return func() {
@@ -376,6 +458,10 @@ func init() {
 		Doc: "3 goroutines on 2 connections: echo(5);slow(11) || echo(7) || echo(9);post inc()", MustFlag: []string{"server-order-differs-from-default"}})
 	reg.Register(&reg.Scenario{Property: "C04", Name: "failing-calls", Body: failing, Quick: 2, Thorough: 3,
 		Doc: "A: echo(-7) [method error], echo(6) || B (same connection): echo(8), unknown action 999 || C (other connection): echo(-9): each caller gets its own result or its own error text", MustFlag: []string{"server-order-differs-from-default"}})
+	reg.Register(&reg.Scenario{Property: "C04", Name: "limit-size-and-oversized-answers", Body: oversized, Quick: 0, Thorough: 1,
+		Doc: "A: a call whose answer is exactly MaxPayloadSize bytes || B (other connection): a call whose answer is one byte larger: each gets exactly one outcome, the service keeps serving"})
+	reg.Register(&reg.Scenario{Property: "C04", Name: "two-clients-one-connection", Body: twoClients, Quick: 1, Thorough: 3,
+		Doc: "two client objects on one connection (equal message counters) call the same action of two objects; the later call is answered first"})
 	reg.Register(&reg.Scenario{Property: "C04", Name: "cancel-slow", Body: cancel(103, "slow(4)", fx.Int32(4), probe.EchoResult(4)), Quick: 2, Thorough: 3,
 		Doc: "Call(slow(4)) with a cancel channel || close(cancel)", MustFlag: []string{"cancelled"}})
 	reg.Register(&reg.Scenario{Property: "C04", Name: "cancel-noarg", Body: cancel(102, "noarg", nil, 42), Quick: 2, Thorough: 3,
